@@ -97,7 +97,7 @@ PROPERTY = {
     'namespace': 'C06',
     'units': ['AtomicCounts'],
     'required_theorems': ['C06.current_is_last_unexited', 'C06.stack_is_spec', 'C06.thread_independent', 'C06.parent_resolution', 'C06.scope_is_ancestor_chain', 'C06.event_parent_resolution', 'C06.span_parent_resolution', 'C06.event_scope_is_chain',
-                          'C06.clone_code_fact', 'C06.no_reference_lost', 'C06.lost_reference_witness'],
+                          'C06.clone_code_fact', 'C06.no_reference_lost', 'C06.lost_reference_witness', 'C06.not_closed_under_a_holder'],
     'streams': [
         Stream('hist', 'h_registry', gen=gen, nontrivial=nontrivial, spec_mode='spec'),
         Stream('reentry', 'h_registry', gen=gen_reentry, nontrivial=nontrivial),
